@@ -148,14 +148,19 @@ macro_rules! logistic_harness {
             let w0: $F = anyf();
             let w1: $F = anyf();
             let with_init: bool = kani::any();
-            let mut p = $builder::<$F>::default().alpha(alpha).gradient_tolerance(gtol).max_iterations(max_iter).with_intercept(icpt);
-            if with_init {
-                p = p.initial_params(($mk)(w0, w1));
-            }
+            let build = || {
+                let p = $builder::<$F>::default().alpha(alpha).gradient_tolerance(gtol).max_iterations(max_iter).with_intercept(icpt);
+                if with_init {
+                    p.initial_params(($mk)(w0, w1))
+                } else {
+                    p
+                }
+            };
+            let p = build();
             let init_ok = !with_init || (w0.is_finite() && w1.is_finite());
             let acc = alpha.is_finite() && alpha > 0.0 && gtol.is_finite() && gtol > 0.0 && init_ok;
             let rej = !alpha.is_finite() || alpha < 0.0 || !gtol.is_finite() || gtol < 0.0 || !init_ok;
-            let by_val = p.clone().check();
+            let by_val = build().check();
             let r = p.check_ref();
             verdict(r.is_ok(), acc, rej);
             let c_ref = match &r {
